@@ -252,4 +252,418 @@ theorem cRxInd_layout (pre : List Nat) (soft : List Int) (post : List Nat) (adv 
   rw [if_neg (by omega), toa_decode _ (by omega), rssi_decode _ hr.1 hr.2, s16_s16be _ ht.1 ht.2,
     soft_decode_list _ hb, and7, Nat.mod_eq_of_lt htn]
 
+/-! ### decimal printing and scanning -/
+
+theorem isDigit_iff (c : Nat) : isDigit c = true ↔ 48 ≤ c ∧ c ≤ 57 := by
+  simp [isDigit]
+
+theorem decFuel_digits : ∀ (f n : Nat), ∀ c ∈ decFuel f n, isDigit c = true := by
+  intro f
+  induction f with
+  | zero => intro n c hc; simp [decFuel] at hc
+  | succ f ih =>
+    intro n c hc
+    simp only [decFuel] at hc
+    split at hc
+    · simp only [List.mem_singleton] at hc; subst hc; rw [isDigit_iff]; omega
+    · simp only [List.mem_append, List.mem_singleton] at hc
+      rcases hc with hc | hc
+      · exact ih _ c hc
+      · subst hc; rw [isDigit_iff]; omega
+
+theorem decFuel_ne_nil (f n : Nat) : decFuel (f + 1) n ≠ [] := by
+  simp only [decFuel]; split <;> simp
+
+/-- exact number of digits -/
+theorem decFuel_length : ∀ (k f n : Nat), k ≤ f → 10 ^ k ≤ n → n < 10 ^ (k + 1) → (decFuel (f + 1) n).length = k + 1 := by
+  intro k
+  induction k with
+  | zero => intro f n _ h1 h2; simp only [decFuel]; rw [if_pos (by omega)]; rfl
+  | succ k ih =>
+    intro f n hf h1 h2
+    obtain ⟨f', rfl⟩ : ∃ f', f = f' + 1 := ⟨f - 1, by omega⟩
+    have h10 : ¬ n < 10 := by
+      have : 10 ^ (k + 1) ≥ 10 := by
+        have := Nat.pow_le_pow_right (show 10 > 0 by omega) (show 1 ≤ k + 1 by omega)
+        omega
+      omega
+    rw [decFuel, if_neg h10, List.length_append, List.length_singleton]
+    have p1 : 10 ^ (k + 1) = 10 * 10 ^ k := by rw [Nat.pow_succ]; omega
+    have p2 : 10 ^ (k + 1 + 1) = 10 * 10 ^ (k + 1) := by rw [Nat.pow_succ]; omega
+    rw [ih f' (n / 10) (by omega) (by omega) (by omega)]
+
+theorem decFuel_length_small (f n : Nat) (h : n < 10) : (decFuel (f + 1) n).length = 1 := by
+  simp only [decFuel]; rw [if_pos h]; rfl
+
+/-- at most `k` digits below `10^k` -/
+theorem decFuel_length_le : ∀ (k f n : Nat), 1 ≤ k → k ≤ f → n < 10 ^ k → (decFuel f n).length ≤ k := by
+  intro k
+  induction k with
+  | zero => intro f n h; omega
+  | succ k ih =>
+    intro f n _ hf h2
+    obtain ⟨f', rfl⟩ : ∃ f', f = f' + 1 := ⟨f - 1, by omega⟩
+    simp only [decFuel]
+    split
+    · simp
+    · rename_i h10
+      have p2 : 10 ^ (k + 1) = 10 * 10 ^ k := by rw [Nat.pow_succ]; omega
+      have hk : 1 ≤ k := by
+        rcases Nat.eq_zero_or_pos k with h | h
+        · subst h; simp at h2; omega
+        · exact h
+      have := ih f' (n / 10) hk (by omega) (by omega)
+      simp only [List.length_append, List.length_singleton]; omega
+
+/-- scanning the printed digits of `n` continues behind them with the accumulated value -/
+theorem scanDigits_decFuel : ∀ (f n : Nat) (rest : List Nat) (acc : Nat), n < 10 ^ f →
+    scanDigits (decFuel f n ++ rest) acc = scanDigits rest (acc * 10 ^ (decFuel f n).length + n) := by
+  intro f
+  induction f with
+  | zero => intro n rest acc h; simp at h; subst h; simp [decFuel]
+  | succ f ih =>
+    intro n rest acc h
+    simp only [decFuel]
+    split
+    · rename_i h10
+      have hd : isDigit (48 + n) = true := by rw [isDigit_iff]; omega
+      simp only [List.singleton_append, scanDigits, hd, if_true, List.length_singleton]
+      congr 1; omega
+    · rename_i h10
+      have p2 : 10 ^ (f + 1) = 10 * 10 ^ f := by rw [Nat.pow_succ]; omega
+      rw [List.append_assoc, ih (n / 10) _ acc (by omega)]
+      have hd : isDigit (48 + n % 10) = true := by rw [isDigit_iff]; omega
+      simp only [List.singleton_append, scanDigits, hd, if_true, List.length_append, List.length_singleton]
+      congr 1
+      rw [Nat.pow_succ]
+      have : 48 + n % 10 - 48 = n % 10 := by omega
+      rw [this, Nat.mul_add, ← Nat.mul_assoc, Nat.mul_comm 10 acc]
+      have e : 10 * (n / 10) + n % 10 = n := by omega
+      rw [Nat.mul_assoc, Nat.mul_comm 10 (10 ^ _)]
+      omega
+
+/-- the text does not go on with a digit -/
+def NoDigitHead (rest : List Nat) : Prop := ∀ c t, rest = c :: t → isDigit c = false
+
+theorem noDigitHead_nil : NoDigitHead [] := by intro c t h; cases h
+theorem noDigitHead_cons (c : Nat) (t : List Nat) (h : isDigit c = false) : NoDigitHead (c :: t) := by
+  intro c' t' e; injection e with e1 _; subst e1; exact h
+
+theorem scanDigits_stop (rest : List Nat) (acc : Nat) (h : NoDigitHead rest) : scanDigits rest acc = (acc, rest) := by
+  cases rest with
+  | nil => rfl
+  | cons c t => simp only [scanDigits, h c t rfl]; rfl
+
+theorem scanSign_digit (c : Nat) (t : List Nat) (h : isDigit c = true) : scanSign (c :: t) = (false, c :: t) := by
+  rw [isDigit_iff] at h
+  unfold scanSign
+  split
+  · rename_i e; injection e with e1 _; omega
+  · rename_i e; injection e with e1 _; omega
+  · rfl
+
+theorem isSpace_digit (c : Nat) (h : isDigit c = true) : isSpace c = false := by
+  rw [isDigit_iff] at h
+  simp only [isSpace, Bool.or_eq_false_iff, beq_eq_false_iff_ne, Bool.and_eq_false_iff, decide_eq_false_iff_not]
+  omega
+
+/-- scanning printed digits (`f ≥ 1` places) -/
+theorem scanNum_dec (f n : Nat) (rest : List Nat) (h : n < 10 ^ (f + 1)) (hr : NoDigitHead rest) :
+    scanNum (decFuel (f + 1) n ++ rest) = some (false, n, rest) := by
+  have hne := decFuel_ne_nil f n
+  have hsd := scanDigits_decFuel (f + 1) n rest 0 h
+  have hdig := decFuel_digits (f + 1) n
+  cases hd : decFuel (f + 1) n with
+  | nil => exact absurd hd hne
+  | cons c cs =>
+    rw [hd] at hsd hdig
+    have hc : isDigit c = true := hdig c (by simp)
+    simp only [List.cons_append] at hsd
+    simp only [scanNum, List.cons_append, List.dropWhile_cons, isSpace_digit c hc, Bool.false_eq_true, if_false]
+    rw [scanSign_digit c (cs ++ rest) hc]
+    simp only [hc, if_true, hsd, Nat.zero_mul, Nat.zero_add, scanDigits_stop rest n hr]
+
+theorem scanNum_neg (f n : Nat) (rest : List Nat) (h : n < 10 ^ (f + 1)) (hr : NoDigitHead rest) :
+    scanNum (45 :: decFuel (f + 1) n ++ rest) = some (true, n, rest) := by
+  have hne := decFuel_ne_nil f n
+  have hsd := scanDigits_decFuel (f + 1) n rest 0 h
+  have hdig := decFuel_digits (f + 1) n
+  cases hd : decFuel (f + 1) n with
+  | nil => exact absurd hd hne
+  | cons c cs =>
+    rw [hd] at hsd hdig
+    have hc : isDigit c = true := hdig c (by simp)
+    have hs45 : isSpace 45 = false := by decide
+    simp only [List.cons_append] at hsd
+    simp only [scanNum, List.cons_append, List.dropWhile_cons, hs45, Bool.false_eq_true, if_false, scanSign]
+    simp only [hc, if_true, hsd, Nat.zero_mul, Nat.zero_add, scanDigits_stop rest n hr]
+
+/-- white space in front is skipped -/
+theorem scanNum_space (s : List Nat) : scanNum (32 :: s) = scanNum s := by
+  have : isSpace 32 = true := by decide
+  simp only [scanNum, List.dropWhile_cons, this, if_true]
+
+theorem fmtD_first (x : Int) : ∃ c t, fmtD x = c :: t ∧ isSpace c = false := by
+  simp only [fmtD]
+  split
+  · exact ⟨45, _, rfl, by decide⟩
+  · have hne := decFuel_ne_nil 9 (s32i x).toNat
+    have hdig := decFuel_digits 10 (s32i x).toNat
+    cases hd : decFuel 10 (s32i x).toNat with
+    | nil => exact absurd hd hne
+    | cons c cs => rw [hd] at hdig; exact ⟨c, cs, rfl, isSpace_digit c (hdig c (by simp))⟩
+
+theorem s32i_id (x : Int) (h1 : -2147483648 ≤ x) (h2 : x ≤ 2147483647) : s32i x = x := by
+  simp only [s32i, s32]; split <;> omega
+
+/-- `sscanf("%d")` of a printed `int` (`%d`) returns it -/
+theorem sscanfD_fmtD (x : Int) (rest : List Nat) (h1 : -2147483648 ≤ x) (h2 : x ≤ 2147483647)
+    (hr : NoDigitHead rest) : sscanfD (fmtD x ++ rest) = some x := by
+  simp only [sscanfD, fmtD, s32i_id x h1 h2]
+  by_cases hneg : x < 0
+  · rw [if_pos hneg, scanNum_neg 9 x.natAbs rest (by omega) hr]
+    simp only [valD, if_true]
+    rw [if_neg (by omega)]
+    rw [s32i_id _ (by omega) (by omega)]; congr 1; omega
+  · rw [if_neg hneg, scanNum_dec 9 x.toNat rest (by omega) hr]
+    simp only [valD, Bool.false_eq_true, if_false]
+    rw [if_neg (by omega)]
+    rw [s32i_id _ (by omega) (by omega)]; congr 1; omega
+
+/-- `sscanf("%u %d")` of `"<%u> <%d>"` returns both -/
+theorem sscanfUD_fmt (a : Nat) (b : Int) (rest : List Nat) (ha : a < 4294967296)
+    (h1 : -2147483648 ≤ b) (h2 : b ≤ 2147483647) (hr : NoDigitHead rest) :
+    sscanfUD (fmtU a ++ [32] ++ fmtD b ++ rest) = some (a, b) := by
+  have hu : u32 a = a := by simp only [u32]; omega
+  have hsp : NoDigitHead ([32] ++ fmtD b ++ rest) := by
+    simp only [List.cons_append]; exact noDigitHead_cons 32 _ (by decide)
+  have hD := sscanfD_fmtD b rest h1 h2 hr
+  simp only [sscanfD] at hD
+  simp only [sscanfUD, fmtU, hu, List.append_assoc]
+  rw [scanNum_dec 9 a _ (by omega) (by simpa using hsp)]
+  simp only [List.singleton_append, scanNum_space]
+  cases hs : scanNum (fmtD b ++ rest) with
+  | none => rw [hs] at hD; cases hD
+  | some r =>
+    obtain ⟨neg, m, rr⟩ := r
+    rw [hs] at hD
+    simp only [Option.some.injEq] at hD
+    simp only [hD, valU]
+    rw [if_neg (by omega)]
+    simp only [Bool.false_eq_true, if_false, u32]
+    congr 2
+
+/-! ### ARFCN ↔ frequency -/
+
+theorem and_two_pow' (x n : Nat) : x &&& 2 ^ n = if x / 2 ^ n % 2 = 1 then 2 ^ n else 0 := by
+  apply Nat.eq_of_testBit_eq
+  intro j
+  rw [Nat.testBit_and, Nat.testBit_two_pow]
+  by_cases h : n = j
+  · subst h
+    by_cases hx : x / 2 ^ n % 2 = 1
+    · have : 2 ^ n / 2 ^ n = 1 := Nat.div_self (Nat.two_pow_pos n)
+      simp [hx, Nat.testBit_eq_decide_div_mod_eq, this]
+    · simp [hx, Nat.testBit_eq_decide_div_mod_eq]
+  · by_cases hx : x / 2 ^ n % 2 = 1
+    · simp [hx, h, Nat.testBit_two_pow_of_ne h]
+    · simp [hx, h]
+
+theorem and32768 (x : Nat) : x &&& 32768 = if x / 32768 % 2 = 1 then 32768 else 0 := and_two_pow' x 15
+
+/-- what the band chain yields for a 12 bit ARFCN -/
+theorem arfcnBand_some (pcs : Bool) (a ul off : Int) (h0 : 0 ≤ a) (h1 : a ≤ 4095)
+    (h : arfcnBand pcs a = some (ul, off)) :
+    4506 ≤ ul ∧ ul + off ≤ 26468 ∧ 100 ≤ off ∧ off ≤ 950 ∧
+    ((ul < 10000 ∧ ul + off < 10000) ∨ (10000 ≤ ul)) := by
+  unfold arfcnBand at h
+  repeat' split at h
+  all_goals (cases h; try omega)
+
+/-- an ARFCN for which `gsm_arfcn2freq10` does not answer 0xffff -/
+def ValidArfcn (a : Nat) : Prop := arfcn2freq10 a false ≠ 65535
+
+instance (a : Nat) : Decidable (ValidArfcn a) := by unfold ValidArfcn; infer_instance
+
+/-- both directions are defined together; both frequencies have the same number of digits -/
+theorem arfcn2freq10_valid (a : Nat) (h : ValidArfcn a) :
+    ∃ ul off : Nat, arfcn2freq10 a true = ul ∧ arfcn2freq10 a false = ul + off ∧ 4506 ≤ ul ∧ ul + off ≤ 26468 ∧
+      100 ≤ off ∧ ((ul < 10000 ∧ ul + off < 10000) ∨ 10000 ≤ ul) := by
+  unfold ValidArfcn at h
+  simp only [arfcn2freq10] at h ⊢
+  have hb : (0 : Int) ≤ ((u16 a &&& (65535 - arfcnFlagMask) : Nat) : Int) := by omega
+  have hb2 : ((u16 a &&& (65535 - arfcnFlagMask) : Nat) : Int) ≤ 4095 := by
+    have : 65535 - arfcnFlagMask = 4095 := by decide
+    rw [this, and4095]; omega
+  cases hband : arfcnBand ((u16 a &&& arfcnPCS) != 0) ((u16 a &&& (65535 - arfcnFlagMask) : Nat) : Int) with
+  | none => simp [hband] at h
+  | some r =>
+    obtain ⟨ul, off⟩ := r
+    obtain ⟨f1, f2, f3, f4, f5⟩ := arfcnBand_some _ _ ul off hb hb2 hband
+    refine ⟨ul.toNat, off.toNat, ?_, ?_, ?_, ?_, ?_, ?_⟩
+    · simp only [u16i, if_true]; omega
+    · simp only [u16i, u16, Bool.false_eq_true, if_false]; omega
+    · omega
+    · omega
+    · omega
+    · omega
+
+
+/-- ARFCNs in the bands of TS 45.005 as trxcon's scheduler names them: plain numbers, and
+512..810 with the PCS flag for PCS 1900 -/
+def CanonArfcn (a : Nat) : Prop :=
+  a ≤ 124 ∨ (955 ≤ a ∧ a ≤ 1023) ∨ (128 ≤ a ∧ a ≤ 251) ∨ (512 ≤ a ∧ a ≤ 885) ∨ (259 ≤ a ∧ a ≤ 293) ∨
+  (306 ≤ a ∧ a ≤ 340) ∨ (350 ≤ a ∧ a ≤ 425) ∨ (438 ≤ a ∧ a ≤ 511) ∨ (32768 + 512 ≤ a ∧ a ≤ 32768 + 810)
+
+instance (a : Nat) : Decidable (CanonArfcn a) := by unfold CanonArfcn; infer_instance
+
+/-- downlink frequency of a canonical ARFCN, in closed form -/
+theorem arfcn2freq10_canon (a : Nat) (h : CanonArfcn a) :
+    arfcn2freq10 a false =
+      if a ≤ 124 then 9350 + 2 * a
+      else if 955 ≤ a ∧ a ≤ 1023 then 9350 + 2 * a - 2048
+      else if 128 ≤ a ∧ a ≤ 251 then 8692 + 2 * (a - 128)
+      else if 512 ≤ a ∧ a ≤ 885 then 18052 + 2 * (a - 512)
+      else if 259 ≤ a ∧ a ≤ 293 then 4606 + 2 * (a - 259)
+      else if 306 ≤ a ∧ a ≤ 340 then 4890 + 2 * (a - 306)
+      else if 350 ≤ a ∧ a ≤ 425 then 8510 + 2 * (a - 350)
+      else if 438 ≤ a ∧ a ≤ 511 then 7772 + 2 * (a - 438)
+      else 19302 + 2 * (a - 32768 - 512) := by
+  have hu : u16 a = a := by unfold CanonArfcn at h; simp only [u16]; omega
+  have hm : 65535 - arfcnFlagMask = 4095 := by decide
+  simp only [arfcn2freq10, hu, hm, and4095, arfcnPCS, and32768]
+  unfold CanonArfcn at h
+  by_cases hp : a / 32768 % 2 = 1
+  · have e : arfcnBand ((if a / 32768 % 2 = 1 then 32768 else 0) != 0) ((a % 4096 : Nat) : Int)
+        = some (18502 + 2 * (((a % 4096 : Nat) : Int) - 512), 800) := by
+      simp [arfcnBand, hp]
+    rw [e]
+    simp only [u16i, u16, Bool.false_eq_true, if_false]
+    repeat' split
+    all_goals omega
+  · have e0 : ((if a / 32768 % 2 = 1 then 32768 else 0) != 0) = false := by simp [hp]
+    rw [e0]
+    have hmod : a % 4096 = a := by omega
+    simp only [arfcnBand, Bool.false_eq_true, if_false, hmod]
+    rcases h with h | h | h | h | h | h | h | h | h
+    all_goals
+      repeat (first | rw [if_pos (by omega)] | rw [if_neg (by omega)])
+      simp only [u16i, u16]
+      omega
+
+
+/-- `gsm_freq102arfcn` inverts `gsm_arfcn2freq10` (downlink) on the canonical ARFCNs -/
+theorem freq_roundtrip (a : Nat) (h : CanonArfcn a) : freq102arfcn (arfcn2freq10 a false) false = a := by
+  have hc := arfcn2freq10_canon a h
+  unfold CanonArfcn at h
+  rcases h with h | h | h | h | h | h | h | h | h
+  all_goals
+    (repeat (first | rw [if_pos (by omega)] at hc | rw [if_neg (by omega)] at hc))
+    rw [hc]
+    simp only [freq102arfcn, freq102arfcn.go, gsmRanges, Bool.false_eq_true, if_false, u16,
+      Nat.shiftRight_eq_div_pow, Nat.or_zero]
+    (repeat (first | rw [if_pos (by omega)] | rw [if_neg (by omega)]))
+  all_goals try omega
+  -- PCS: the flag is or-ed in
+  rw [Nat.or_two_pow_eq_add_of_lt (n := 15) (by omega)]
+  omega
+
+/-! ### FSM / queue plumbing -/
+
+/-- the fields of `Trx` that `fsmChg` / `ctrlSend` leave alone -/
+structure SameData (t t' : Trx) : Prop where
+  queue : t'.queue = t.queue
+  elog : t'.elog = t.elog
+  rsp : t'.rsp = t.rsp
+
+theorem fsmChg_ok (t : Trx) (new : Nat) (h : t.state < 4) (hn : new < 4) :
+    ∃ t', fsmChg t new = .ok t' ∧ SameData t t' ∧ t'.sent = t.sent ∧ t'.poweredUp = t.poweredUp ∧ t'.state < 4 := by
+  have hl : fsmOutMask.length = 4 := by decide
+  have hg : fsmOutMask[t.state]? = some (fsmOutMask[t.state]'(by omega)) := List.getElem?_eq_getElem (by omega)
+  simp only [fsmChg, hg]
+  split
+  · exact ⟨_, rfl, ⟨rfl, rfl, rfl⟩, rfl, rfl, hn⟩
+  · exact ⟨_, rfl, ⟨rfl, rfl, rfl⟩, rfl, rfl, h⟩
+
+theorem takeWhile_all {p : Nat → Bool} (l : List Nat) (h : ∀ c ∈ l, p c = true) : l.takeWhile p = l := by
+  induction l with
+  | nil => rfl
+  | cons x xs ih =>
+    simp only [List.takeWhile_cons, h x (by simp), if_true]
+    rw [ih (fun c hc => h c (by simp [hc]))]
+
+theorem cmdStrAt_zero (m : CtrlMsg) (h : ∀ c ∈ m.cmd, c ≠ 0) : cmdStrAt m 0 = m.cmd := by
+  simp only [cmdStrAt, List.drop_zero]
+  exact takeWhile_all _ (fun c hc => by simpa using h c hc)
+
+theorem ctrlSend_ok (t : Trx) (h : t.state < 4) :
+    ∃ t', ctrlSend t = .ok t' ∧ SameData t t' ∧ t'.state < 4 ∧ t'.poweredUp = t.poweredUp ∧
+      (t.queue = [] → t'.sent = t.sent) ∧
+      (∀ m rest, t.queue = m :: rest → t'.sent = t.sent ++ [cmdStrAt m 0 ++ [0]]) := by
+  unfold ctrlSend
+  split
+  · rename_i hq
+    exact ⟨t, rfl, ⟨rfl, rfl, rfl⟩, h, rfl, fun _ => rfl, fun m rest e => by rw [hq] at e; cases e⟩
+  · rename_i m rest hq
+    simp only [bind, Except.bind, pure, Except.pure]
+    by_cases hs : t.state ≠ stRspWait
+    · rw [if_pos (by simpa using hs)]
+      obtain ⟨t1, h1, sd, hsent, hpu, hst⟩ := fsmChg_ok { t with sent := t.sent ++ [cmdStrAt m 0 ++ [0]], prevState := t.state }
+        stRspWait h (by decide)
+      rw [h1]
+      refine ⟨_, rfl, ⟨sd.queue, sd.elog, sd.rsp⟩, hst, hpu, (fun e => by rw [hq] at e; cases e), ?_⟩
+      intro m' rest' e
+      rw [hq] at e; injection e with e1 e2; subst e1
+      exact hsent
+    · rw [if_neg (by simpa using hs)]
+      refine ⟨_, rfl, ⟨rfl, rfl, rfl⟩, h, rfl, (fun e => by rw [hq] at e; cases e), ?_⟩
+      intro m' rest' e
+      rw [hq] at e; injection e with e1 e2; subst e1
+      rfl
+
+
+/-- the text `trx_ctrl_cmd` builds when nothing is cut off -/
+def cmdText (verb : List Nat) (args : Option (List Nat)) : List Nat :=
+  match args with
+  | some a => str "CMD " ++ verb ++ [32] ++ a
+  | none => str "CMD " ++ verb
+
+theorem ctrlCmd_ok (t : Trx) (crit : Int) (verb : List Nat) (args : Option (List Nat)) (hst : t.state < 4)
+    (hfit : (cmdText verb args).length + 2 ≤ cmdSize) :
+    ∃ t', ctrlCmd t crit verb args = .ok (0, t') ∧
+      t'.queue = t.queue ++ [⟨cmdText verb args, crit, verb.length⟩] ∧ t'.state < 4 ∧ t'.elog = t.elog ∧
+      (t.queue = [] → t'.sent = t.sent ++ [cmdStrAt ⟨cmdText verb args, crit, verb.length⟩ 0 ++ [0]]) ∧
+      (t.queue ≠ [] → t'.sent = t.sent) := by
+  have htext : ctrlCmdText verb args = .ok (cmdText verb args) := by
+    unfold ctrlCmdText
+    cases args with
+    | none =>
+      simp only [cmdText] at hfit ⊢
+      simp only [snprintfStored]
+      rw [List.take_of_length_le (by omega)]
+    | some a =>
+      simp only [cmdText, List.length_append] at hfit
+      simp only [cmdText, snprintfStored]
+      rw [if_neg (by simp only [List.length_append]; omega)]
+      rw [List.take_of_length_le (by simp only [List.length_append]; omega),
+        List.take_of_length_le (by simp only [List.length_append]; omega)]
+  unfold ctrlCmd
+  simp only [htext, bind, Except.bind, pure, Except.pure]
+  by_cases hq : t.queue = []
+  · have hp : (!t.queue.isEmpty) = false := by simp [hq]
+    simp only [hp, Bool.not_false, if_true]
+    obtain ⟨t1, h1, sd, hs1, hpu, hnil, hcons⟩ := ctrlSend_ok
+      { t with queue := t.queue ++ [⟨cmdText verb args, crit, verb.length⟩] } hst
+    rw [h1]
+    refine ⟨t1, rfl, sd.queue, hs1, sd.elog, ?_, fun h => absurd hq h⟩
+    intro _
+    have := hcons ⟨cmdText verb args, crit, verb.length⟩ [] (by simp [hq])
+    exact this
+  · have hp : (!t.queue.isEmpty) = true := by
+      cases hq' : t.queue with
+      | nil => exact absurd hq' hq
+      | cons => rfl
+    simp only [hp, Bool.not_true, Bool.false_eq_true, if_false]
+    exact ⟨_, rfl, rfl, hst, rfl, fun h => absurd h hq, fun _ => rfl⟩
+
 end OsmoVerif.TrxconIf
